@@ -90,6 +90,11 @@ def replay_rotate(ctx, rnd, st, wlo, whi, idx, pid='C15'):
         want = area_value(m['area'], U) * scale * scale
         got = float(rot.area)
         tol = 1e-12 * max(want, (30.0 * scale) ** 2)     # self-intersecting polygons have zero signed area
+        if s['k'] == 'polygon':
+            # the shoelace sum works on absolute coordinates: far from the origin its rounding (and that of the rotated vertices) is of
+            # the order n * eps * M^2, M the largest coordinate
+            M = max(abs(fr.tx), abs(fr.ty)) + 40.0 * scale
+            tol = max(tol, 4 * len(s['vs']) * 2.3e-16 * M * M)
         if abs(got - want) > tol or abs(got - float(region.area)) > tol:
             ctx.violation(f'{pid}|area|{kind_sig(s)}', f'area after rotation {got!r}, before {float(region.area)!r}, model {want!r}', case)
             return
